@@ -36,6 +36,7 @@ META["text"] += " R6 also: NENAssertion.subsumes holds iff every tail the other 
 META["text"] += ' R6 also: the search ranges over the contest and winner handed in (the parameters are not re-bound, the candidate list is not edited).'
 META["text"] += ' R3 also: the difficulty functions shipped with the search are finite for every strict win (inf only under an exact sign test of the margin, never under a tolerance).'
 META["text"] += ' R2 also: the RAIRE Contest stores its constructor arguments unconverted. R6 also: the harvest recognises duplicates by same_as and subsumes only.'
+META["text"] += " (R8, N, frame condition on arguments) the search scores assertions on the caller's ballots and leaves them as they were: every function in scope changes the objects it is handed only in the ways confirmed for it (aud.ARG_EFFECTS); references are followed through aliases, elements, attributes, loop variables, .get/.items/.values and np.asarray, resolved by the bindings that reach the use."
 
 
 def r3_estimates(chk):
@@ -73,6 +74,10 @@ def r3_estimates(chk):
 
 
 def run(chk):
+    from .. import aud as _aud8
+    _aud8.argument_effects(chk, 'C04.R8', 'shangrla/raire/raire_utils.py', "the search scores assertions on the caller's ballots and leaves them as they were", only=None)
+    _aud8.argument_effects(chk, 'C04.R8', 'shangrla/raire/raire.py', "the search scores assertions on the caller's ballots and leaves them as they were", only=None)
+    _aud8.argument_effects(chk, 'C04.R8', 'shangrla/raire/simp_assertions.py', "the search scores assertions on the caller's ballots and leaves them as they were", only=None)
     chk.explain("R1 tally guard and report at the NEB and NEN creation sites; R2 contest identifier kind at every instantiation; R3 None "
                 "discipline of RaireNode.best_assertion; R4 `[]` only when the audit is not possible.")
     chk.trust("structured dominance (a statement inside an `if` body executes only when the test held)")
